@@ -153,6 +153,18 @@ func makeVariants(s samples.Sample, r *rand.Rand, neutral bool) []variant {
 		vs = append(vs, variant{samples.Rezip(first), append([]string{"decoy.pos=first"}, feats...)})
 		last := append(append([]samples.ZMember{}, ms...), dm...)
 		vs = append(vs, variant{samples.Rezip(last), append([]string{"decoy.pos=last"}, feats...)})
+		if s.Format == "odt" || s.Format == "epub" {
+			// the skeleton of a wordprocessing package as stray members behind the mimetype
+			// member (which stays first, as ODF 1.2 part 3, 3.3 and OCF 3.3 require): the
+			// package still says what it is in its mimetype member
+			sk := []samples.ZMember{{Name: "[Content_Types].xml", Data: []byte(`<?xml version="1.0" encoding="UTF-8"?><Types xmlns="http://schemas.openxmlformats.org/package/2006/content-types"><Default Extension="xml" ContentType="application/xml"/><Override PartName="/word/document.xml" ContentType="application/vnd.openxmlformats-officedocument.wordprocessingml.document.main+xml"/></Types>`)},
+				{Name: "word/document.xml", Data: []byte(`<?xml version="1.0" encoding="UTF-8"?><w:document xmlns:w="http://schemas.openxmlformats.org/wordprocessingml/2006/main"><w:body><w:p><w:r><w:t>stray</w:t></w:r></w:p></w:body></w:document>`)}}
+			withSk := append(append(append([]samples.ZMember{}, ms[:1]...), sk...), ms[1:]...)
+			if r.Intn(2) == 0 {
+				withSk = append(append([]samples.ZMember{}, ms...), sk...)
+			}
+			vs = append(vs, variant{samples.Rezip(withSk), []string{"decoy=ooxml-skeleton"}})
+		}
 		if s.Format == "docx" || s.Format == "xlsx" || s.Format == "pptx" {
 			// the skeleton of an EPUB / ODF package as stray members, its mimetype member
 			// with undecodable data: the package still says what it is in [Content_Types].xml
